@@ -127,6 +127,10 @@ pub enum PortAction<'a> {
 
 const MAX_ACTIONS: usize = 2;
 
+/// Room for TLVs in an Announce message: the largest message we send minus the
+/// header (34 octets) and the Announce body (30 octets).
+const MAX_FORWARDED_TLV_SIZE: usize = crate::datastructures::messages::MAX_DATA_LEN - 34 - 30;
+
 /// An Iterator over [`PortAction`]s
 ///
 /// These are returned by [`Port`](`super::Port`) when ever the library needs
@@ -187,7 +191,10 @@ impl<'a> Iterator for PortActionIterator<'a> {
     fn next(&mut self) -> Option<Self::Item> {
         self.internal.next().or_else(|| loop {
             let tlv = self.tlvs.next()?;
-            if tlv.tlv_type.announce_propagate() {
+            // A TLV that does not even fit an otherwise empty Announce can never
+            // be forwarded; handing it to the forwarder would only block every
+            // TLV queued behind it.
+            if tlv.tlv_type.announce_propagate() && tlv.wire_size() <= MAX_FORWARDED_TLV_SIZE {
                 return Some(PortAction::ForwardTLV {
                     tlv: ForwardedTLV {
                         tlv,
